@@ -496,7 +496,10 @@ func newLockAnalysis(c *Ctx) *lockAnalysis {
 				if _, isDefer := in.(*ssa.Defer); isDefer {
 					return
 				}
-				if sc := ci.Common().StaticCallee(); sc != nil && la.inSet[sc] && sc.Parent() == nil {
+				for _, sc := range la.directTargets(ci) {
+					if sc.Parent() != nil {
+						continue
+					}
 					st := lf.before[in]
 					if !st.top {
 						next[sc] = meetFact(next[sc], st)
@@ -580,13 +583,39 @@ func isExportedEntry(fn *ssa.Function) bool {
 	return obj.Exported()
 }
 
+// directTargets: the analysed function a call statically goes to — the callee itself, or the
+// method wrapped by a bound-method closure that is called (`fn := b.m; ...; fn()`).
+func (la *lockAnalysis) directTargets(ci ssa.CallInstruction) []*ssa.Function {
+	sc := ci.Common().StaticCallee()
+	if sc == nil {
+		return nil
+	}
+	if la.inSet[sc] {
+		return []*ssa.Function{sc}
+	}
+	if sc.Synthetic == "" || sc.Blocks == nil {
+		return nil
+	}
+	var out []*ssa.Function
+	eachInstr(sc, func(in ssa.Instruction) {
+		if c2, ok := in.(ssa.CallInstruction); ok {
+			if t := c2.Common().StaticCallee(); t != nil && la.inSet[t] {
+				out = append(out, t)
+			}
+		}
+	})
+	return out
+}
+
 func (la *lockAnalysis) hasCallers(fn *ssa.Function) bool {
 	found := false
 	for _, g := range la.funcs {
 		eachInstr(g, func(in ssa.Instruction) {
 			if ci, ok := in.(ssa.CallInstruction); ok {
-				if ci.Common().StaticCallee() == fn {
-					found = true
+				for _, t := range la.directTargets(ci) {
+					if t == fn {
+						found = true
+					}
 				}
 			}
 		})
@@ -861,18 +890,46 @@ func (la *lockAnalysis) calleesOf(ci *ssa.Call) []*ssa.Function {
 		if la.inSet[sc] {
 			return []*ssa.Function{sc}
 		}
-		return nil
-	}
-	if !cc.IsInvoke() {
-		return nil
-	}
-	// interface dispatch: resolved by the VTA call graph over the repository's
-	// functions (type flow decides which concrete types reach this receiver).
-	var out []*ssa.Function
-	for _, callee := range la.c.Callees(ci) {
-		if la.inSet[callee] {
-			out = append(out, callee)
+		// a bound-method closure called directly (`fn := b.m; fn()`): the method it wraps
+		if sc.Synthetic != "" && sc.Blocks != nil {
+			var out []*ssa.Function
+			eachInstr(sc, func(in ssa.Instruction) {
+				if c2, ok := in.(ssa.CallInstruction); ok {
+					if t := c2.Common().StaticCallee(); t != nil && la.inSet[t] {
+						out = append(out, t)
+					}
+				}
+			})
+			return out
 		}
+		return nil
+	}
+	// interface dispatch, or a call of a function value (`fn()` with fn a method value handed to a
+	// locking helper): resolved by the VTA call graph over the repository's functions (type flow
+	// decides which concrete types / function values reach this call).
+	var out []*ssa.Function
+	seen := map[*ssa.Function]bool{}
+	var add func(f *ssa.Function, depth int)
+	add = func(f *ssa.Function, depth int) {
+		if f == nil || seen[f] || depth > 2 {
+			return
+		}
+		seen[f] = true
+		if la.inSet[f] {
+			out = append(out, f)
+			return
+		}
+		// a bound-method closure or thunk: the method it wraps
+		if f.Synthetic != "" && f.Blocks != nil {
+			eachInstr(f, func(in ssa.Instruction) {
+				if c2, ok := in.(ssa.CallInstruction); ok {
+					add(c2.Common().StaticCallee(), depth+1)
+				}
+			})
+		}
+	}
+	for _, callee := range la.c.Callees(ci) {
+		add(callee, 0)
 	}
 	return out
 }
